@@ -471,6 +471,8 @@ def main(run):
                 what.append("Journal.print_journal vs IdentityExporter on the dumped transactions")
             if not (bits & 32):
                 what.append("Journal.load_journal vs parser::string_to_txns on the identity export")
+            if not (bits & 64):
+                what.append("the loaded transactions do not satisfy Journal_spec.journal_wf (hypothesis of C06_roundtrip)")
             run.violation("correspondence broken: " + "; ".join(what) + " (spec oracle clean on this input)",
                           {"correspondence": "C06_corr.c06_case", "bits": bits, "journal": c["text"], "config_zone": CFGS[c["cfg"]][0],
                            "injected": c["tags"], "implementation": {"first": c["st1"], "identity_export": c["s1"][1] if c["s1"] else None,
